@@ -162,6 +162,15 @@ CHECKS["C13"] = dict(
     note="Not modelled in Coq: the version computed while a function is being decorated, clones / unregistered instances (they share or lack rules), the cluster lock; the harness exercises the first two against the implementation. Rebinding a variable of an unsupported type to a supported one is outside the property (untracked variable).",
     ref="6/C13")
 
+CHECKS["C18"] = dict(
+    technique="Coq proof (option resolution file vs argument, dump / rebuild round trip, first-match cluster resolution over repository lists of any length, environment dump round trip; refutations for an unread / undumped option) + source facts + exhaustive option matrix x delivery forms against the implementation incl. behavioural confirmation",
+    text="Theorems over Config/Config.v: for every storage kind and option combination, building from a configuration equals building from the same constructor arguments; arguments override the file option by option; building from the dump of any reachable settings gives the settings back; "
+         "a name resolves to c iff some repository defines it as c and no earlier one defines it (any list), to nothing iff none does; prepend wins, append loses; an environment rebuilt from its dump resolves every name to an equivalent cluster; refutations when memory_cache_mb is not read or metadata_path not dumped. "
+         "Source facts: the option is read, the path is dumped, get_cluster returns at the first match. Implementation: ALL option combinations x {constructor arguments, inline dict, JSON files, YAML with template parameters}, all informative file x argument override pairs, "
+         "to_dict and reconstruction of every backend, behavioural confirmation (where files appear, executions, cache service after removing files) incl. on the environment rebuilt from Environment.to_dict(), repository lists built four ways with look-ups between prepend / append.",
+    note="Paths are compared as given strings; storage kinds are the registered ones (filesystem, memory, null) and runners local / null; plugin backends are out of scope.",
+    ref="6/C18")
+
 NOT_YET = {}
 
 
